@@ -10,7 +10,7 @@ import XmppModel.Model.SendGuard
                                                        k tokens of its element; then Send(next))
     flush <entry> <form>                           -> 1 | 0   (is the element on the connection
                                                        when the call returns)
-    behind <fail|finish> <park> <k> <holder toks> <entry> <ns> <from|-> <startTok|-> <toks>
+    behind <fail|finish|twfail> <park> <k> <holder toks> <entry> <ns> <from|-> <startTok|-> <toks>
                                                    -> <first ok|fail> <second ok|broken> <canonical wire>
                                                        (a Send parked after `park` tokens of its element, stopping after k; the second
                                                        call queued for the lock; statuses from the SendGuard LTS
@@ -70,16 +70,21 @@ def handle (args : List String) : Option String :=
     -- (holder takes the lock and writes k items, the second call tries, the holder goes on)
     let prog : SendGuard.Prog Tok :=
       { job := fun i => if i = 0 then first else us,
-        failAt := fun i => if i = 0 && mode == "fail" then some k else none,
+        failAt := fun i => if i = 0 && mode != "finish" then some k else none,
         early := fun _ => false }
     let sched := [0] ++ List.replicate park 0 ++ [1] ++ List.replicate (first.length + 2) 0
       ++ List.replicate (us.length + 2) 1
     let fin := SendGuard.run prog (SendGuard.init Tok) sched
-    let s1 ← match fin.pc 0 with | .done => some "ok" | .failed => some "fail" | _ => none
+    -- an abandoned token writer (`twfail`) stops inside its element like a failed Send, but its
+    -- Close reports success
+    let s1 ← match fin.pc 0 with
+      | .done => some "ok"
+      | .failed => some (if mode == "twfail" then "ok" else "fail")
+      | _ => none
     let s2 ← match fin.pc 1 with | .done => some "ok" | .refused => some "broken" | _ => none
     if !fin.nested.isEmpty then none
     -- what reaches the wire: the encoder model
-    let handed := if mode == "fail" then first.take k else first
+    let handed := if mode != "finish" then first.take k else first
     let r := faultThenNext true cfg fresh handed handed.length us
     match r.2 with
     | .wrote out => if s2 == "ok" then pure s!"{s1} ok {encToks (canon cfg.ns (r.1 ++ out))}" else none
